@@ -9,7 +9,7 @@ EXHAUSTIVE = True
 CHUNK = 1
 RULE = ("complete product: 17 branch mnemonics x every byte distance -300..+300 x 8 target spellings (.+-n octal, forward/backward label "
         "with a .blkb filler, label+-n, local label n / n:, decimal .+n., <.+n>, (.+n)); sob x 8 registers x every distance -140..+6 x the "
-        "same spellings; PC-relative operands in 7 placements x 12 targets x 4 link bases decoded by the independent decoder. Accepted "
+        "same spellings; PC-relative operands in 7 placements x 13 targets x 4 link bases decoded by the independent decoder; the same operand kinds inside an included file aiming at the including file (include at 4 offsets, 3 link regimes) and inside an unrolled '.repeat' body aiming at labels outside it (1-6 iterations). Accepted "
         "<=> distance even and inside the field's reach; accepted cases are batched and compared with the reference encoding, refused "
         "cases run alone and must fail with an error. Non-trivial = distinct (mnemonic, spelling, distance) or (placement, target, base)")
 ASSUMPTIONS = ["reference opcodes and decoder from pdpmc/ref/isa.py", "which error kind is reported (out-of-bounds or odd) is not demanded"]
@@ -73,6 +73,8 @@ def cases(tier):
             yield {"k": "sob", "reg": reg, "sp": sp}
     for base in BASES:
         yield {"k": "rel", "base": base}
+    yield {"k": "include"}
+    yield {"k": "repeat"}
 
 
 def run_family(r, mn_ops, word_of, valid, drange, sp, tag):
@@ -121,6 +123,93 @@ def check(case, r, tier):
         reg = case["reg"]
         run_family(r, "sob r%d," % reg, lambda d: 0o77000 | (reg << 6) | (-d // 2), lambda d: d % 2 == 0 and -126 <= d <= 0,
                    range(-140, 7), case["sp"], "sob r%d" % reg)
+    elif k == "include":
+        # branches and PC-relative operands inside an included file whose targets lie in the including file (and the
+        # other way round), the include at several offsets, the base set first / last / defaulted
+        for pad in (0, 2, 6, 20):
+            for reg in ("first", "last", "none"):
+                base = 0o2000 if reg != "none" else 0o1000
+                inc = "inner:\tnop\n\tbr outer\n\tmov outer, r1\n\tjsr pc, @after\n\tsob r2, outer\n\tmov inner, after\n\t.word outer-., inner-outer\n"
+                main = (".link %o\n" % base if reg == "first" else "") + "outer::\t.blkb %o\n\t.include \"inc.mac\"\nafter::\tmov inner2, r0\n\tbr after\n" % pad + \
+                    (".link %o\n" % base if reg == "last" else "")
+                inc = inc.replace("inner:", "inner::")
+                main = main.replace("inner2", "inner")
+                out = driver.assemble([("m.mac", main)], tree={"inc.mac": inc})
+                r.states += 1 if hasattr(r, "states") else 0
+                key = ("include", pad, reg)
+                ok = out.status == "ok" and out.base == base
+                problems = []
+                if ok:
+                    words = isa.to_words(out.code[pad:])
+                    inner = base + pad
+                    after = inner + 2 + 2 + 4 + 4 + 2 + 6 + 4
+                    env = {"outer": base, "inner": inner, "after": after}
+                    specs = [("Z", 0o240, []), ("B", 0o400, [("ea", "outer")]), ("SD", 0o10000, [("rel", "outer"), ("reg0", 1)]),
+                             ("RD", 0o4000, [("r", 7), ("reld", "after")]), ("SOB", 0o77000, [("r", 2), ("ea", "outer")]),
+                             ("SD", 0o10000, [("rel", "inner"), ("rel", "after")])]
+                    pos = 0
+                    for cls, opb, ops in specs:
+                        c, b, dec, nxt = isa.decode(words, pos)
+                        if (c, b) != (cls, opb):
+                            problems.append("word %d decodes as %s %o" % (pos, c, b))
+                            break
+                        at = inner + 2 * pos
+                        for o, (kind, val) in zip(dec, ops):
+                            if kind == "ea":
+                                tgt = at + 2 + 2 * o["disp"]
+                                if tgt != env[val]:
+                                    problems.append("branch at %o reaches %o, its target %s is at %o" % (at, tgt, val, env[val]))
+                            elif kind in ("rel", "reld"):
+                                ea = isa.effective_address(o, inner)
+                                if ea != env[val] & 0xFFFF or o["mode"] != (6 if kind == "rel" else 7):
+                                    problems.append("relative operand at %o addresses %o, its target %s is at %o" % (at, ea, val, env[val]))
+                        pos = nxt
+                    w1, w2 = words[pos], words[pos + 1]
+                    if w1 != (base - (inner + 2 * pos)) & 0xFFFF or w2 != (inner - base) & 0xFFFF:
+                        problems.append("'.word outer-., inner-outer' holds %o, %o" % (w1, w2))
+                    # the including file's own reference into the included file
+                    tail = isa.to_words(out.code[pad + 2 * (pos + 2):])
+                    c, b, dec, nxt = isa.decode(tail, 0)
+                    if isa.effective_address(dec[0], after) != inner:
+                        problems.append("'mov inner, r0' after the include addresses %o, inner is at %o" % (isa.effective_address(dec[0], after), inner))
+                else:
+                    problems.append("not assembled: %s" % out.cls())
+                r.ran("ok" if not problems else "bad", key=key)
+                for pr in problems[:1]:
+                    r.violation("include-target:%s" % reg, pr, {"k": "files-prog", "main": main, "inc": inc}, None, out.brief())
+        return
+    elif k == "repeat":
+        # an unrolled loop body referring to labels outside the body: every iteration must reach the same target
+        for n in (1, 2, 3, 4, 6):
+            for reg in ("first", "none"):
+                base = 0o2000 if reg == "first" else 0o1000
+                body = "inc cnt\n\tsob r1, top\n\tbr top\n\tmov @cnt, r2"
+                text = (".link %o\n" % base if reg == "first" else "") + "top:\tnop\n\t.repeat %d {\n\t%s\n\t}\ncnt:\t.word 0\n" % (n, body)
+                out = driver.assemble([("r.mac", text)])
+                problems = []
+                if out.status == "ok" and out.base == base:
+                    words = isa.to_words(out.code)
+                    cnt = base + 2 + n * 12
+                    pos = 1
+                    for it in range(n):
+                        for kind in ("rel", "sob", "br", "reld"):
+                            c, b, dec, nxt = isa.decode(words, pos)
+                            at = base + 2 * pos
+                            if kind in ("rel", "reld"):
+                                ea = isa.effective_address(dec[0], base)
+                                if ea != cnt:
+                                    problems.append("iteration %d: operand at %o addresses %o, cnt is at %o" % (it, at, ea, cnt))
+                            else:
+                                d = dec[-1]["disp"]
+                                if at + 2 + 2 * d != base:
+                                    problems.append("iteration %d: branch at %o reaches %o, top is at %o" % (it, at, at + 2 + 2 * d, base))
+                            pos = nxt
+                else:
+                    problems.append("not assembled: %s" % out.cls())
+                r.ran("ok" if not problems else "bad", key=("repeat", n, reg))
+                for pr in problems[:1]:
+                    r.violation("repeat-target", pr, {"kind": "single", "text": text, "expected_hex": "00"}, None, out.brief())
+        return
     elif k == "rel":
         base = case["base"]
         # targets: text, value spec (resolved against bk = base of the one-instruction program, fw = its end)
